@@ -1,2 +1,7 @@
 import IsalVerif.SpecTests
 import IsalVerif.Impl.HashMB
+import IsalVerif.Lemmas.Absorb
+import IsalVerif.Lemmas.Pad
+import IsalVerif.Lemmas.Settle
+import IsalVerif.Lemmas.MgrInv
+import IsalVerif.Lemmas.Resubmit
